@@ -26,7 +26,7 @@ PROPS = {
     "C06": ["contracts.c06_constructors"],
     "C07": ["contracts.c07_printers"],
     "C08": ["contracts.c08_parser"],
-    "C09": ["contracts.c08_parser", "contracts.c09_roundtrip"],
+    "C09": ["contracts.c08_parser", "contracts.c09_roundtrip", "contracts.c07_printers"],
     "C10": ["contracts.c10_rewriters", "contracts.c10_qelim"],
     "C11": ["contracts.c11_cnf"],
     "C12": ["contracts.c12_oracles"],
@@ -36,7 +36,7 @@ PROPS = {
     "C16": ["contracts.c16_tracking", "contracts.c16_script"],
     "C17": ["contracts.c17_smtlib_solver"],
     "C18": ["contracts.c18_optimizer", "contracts.c18_loop", "contracts.c18_multi", "contracts.c06_constructors"],
-    "C20": ["contracts.c14_walkers", "contracts.c10_rewriters", "contracts.c07_printers"],
+    "C20": ["contracts.c14_walkers", "contracts.c10_rewriters", "contracts.c07_printers", "contracts.c11_cnf"],
 }
 
 
